@@ -25,7 +25,9 @@ class Undecided(Exception):
 class FnSpec:
     def __init__(self, name):
         self.name = name
-        self.rules = []
+        # semantics-preserving rewrites are on by default, so that a harmless-looking edit that introduces such a construct
+        # is still verified (and fails its contract) instead of making the unit undecided; `rules` overrides
+        self.rules = ["E4", "E5", "E9", "E10", "E11"]
         self.ret = None
         self.spec = []          # requires/ensures/decreases lines
         self.loops = {}         # k -> {"iter": str|None, "lines": [...]}
